@@ -424,11 +424,9 @@ class WebSocketApp:
 
             try:
                 op_code, frame = self.sock.recv_data_frame(True)
-            except (
-                WebSocketConnectionClosedException,
-                KeyboardInterrupt,
-                SSLEOFError,
-            ) as e:
+            except (KeyboardInterrupt, Exception) as e:
+                # an external dispatcher cannot route an exception back to run_forever:
+                # every read failure (not only a clean end of stream) is a disconnect
                 if custom_dispatcher:
                     return closed(e)
                 else:
